@@ -141,6 +141,7 @@ type WritersSpec struct {
 // FieldWriteContract: an obligation at every store to a struct field (in the packages / functions
 // it is scoped to): `v` is the value stored, `base` the object.
 type FieldWriteContract struct {
+	Kind     string // "field" (store to T.f), "elem" (store to an element of a []T / [N]T), "map" (lookup or update of a map of type T)
 	Type     string // type key, e.g. net/http.Request
 	Field    string
 	Name     string
@@ -476,7 +477,18 @@ func (db *ContractDB) loadContractFile(path, pkg string) error {
 			if i < 0 {
 				return fmt.Errorf("%s: fieldwrite needs <type>.<field>", pos)
 			}
-			curFW = &FieldWriteContract{Type: t[:i], Field: t[i+1:], Pkg: pkg, File: pos, Name: t}
+			curFW = &FieldWriteContract{Kind: "field", Type: t[:i], Field: t[i+1:], Pkg: pkg, File: pos, Name: t}
+			db.FieldWrites = append(db.FieldWrites, curFW)
+		case "elemwrite", "mapaccess":
+			reset()
+			// elemwrite <element type> : every store to an element of a slice/array of that type (v, idx)
+			// mapaccess <map type>     : every lookup and update of a map of that type (k; v and update==true for updates)
+			t := expandModRel(strings.TrimSpace(rest))
+			kind := "elem"
+			if kw == "mapaccess" {
+				kind = "map"
+			}
+			curFW = &FieldWriteContract{Kind: kind, Type: t, Pkg: pkg, File: pos, Name: t}
 			db.FieldWrites = append(db.FieldWrites, curFW)
 		case "writers":
 			reset()
@@ -797,7 +809,7 @@ func (db *ContractDB) loadContractFile(path, pkg string) error {
 	// package are skipped (at least one must exist).
 	isHeader := func(t string) bool {
 		switch strings.Fields(t)[0] {
-		case "func", "extern", "callsite", "lemma", "monitor", "ghost", "ufun", "axiom", "writers", "fieldwrite":
+		case "func", "extern", "callsite", "lemma", "monitor", "ghost", "ufun", "axiom", "writers", "fieldwrite", "elemwrite", "mapaccess":
 			return true
 		}
 		return false
